@@ -4,6 +4,7 @@ import (
 	"fmt"
 	"reflect"
 	"sort"
+	"strings"
 	"testing"
 
 	"github.com/bluenviron/gomavlib/v3/pkg/dialect"
@@ -250,6 +251,41 @@ func TestC17Shipped(t *testing.T) {
 			t.Fatalf("enum constant %s has different values in different dialects: %v", n, values[n])
 		}
 	}
+	// a message that was in a dialect's list when the pins were taken and is not any more, while another shipped dialect
+	// still has it unchanged (a dialect that includes another one lists every message of it): it was dropped from
+	// that list, not withdrawn upstream
+	{
+		have := map[string]uint64{}
+		for i := range Shipped {
+			for _, m := range Shipped[i].Dialect.Messages {
+				if l, err := ref.LayoutOf(reflect.TypeOf(m).Elem()); err == nil {
+					have[fmt.Sprintf("%s/%d", Shipped[i].Name, m.GetID())] = pinSignature(l)
+				}
+			}
+		}
+		var keys []string
+		for k := range pinnedCRC {
+			keys = append(keys, k)
+		}
+		sort.Strings(keys)
+		for _, k := range keys {
+			if _, ok := have[k]; ok {
+				continue
+			}
+			slash := strings.Index(k, "/")
+			if byName[k[:slash]] == nil {
+				continue // the whole dialect is gone
+			}
+			for other, sig := range have {
+				if strings.HasSuffix(other, k[slash:]) && sig == pinnedCRC[k].sig {
+					msg := fmt.Sprintf("message id %s was in the list of dialect %s and is not any more, while dialect %s still has it, unchanged: lookups of that id in %s find nothing", k[slash+1:], k[:slash], other[:strings.Index(other, "/")], k[:slash])
+					evid.ReplayNote("C17", "TestC17Shipped", msg)
+					t.Fatalf("%s", msg)
+				}
+			}
+			rec.Class("pinned-message-withdrawn-everywhere", 1)
+		}
+	}
 	rec.Exhaustive(fmt.Sprintf("all %d dialect packages x all their messages (ids, lookup, size, CRC_EXTRA; %d golden pins, %d values pinned per definition); %d included-message type identities; %d (dialect, constant) pairs over %d constant names", len(Shipped), nGolden, nPinned, nAlias, nconst, len(names)))
 	rec.Sample("dialect-message", "ardupilotmega: GetMessage(0) -> *minimal.MessageHeartbeat, CRC_EXTRA 50, same Go type as in minimal/common/all")
 }
@@ -427,7 +463,7 @@ type MessageBadEmbeddedAlias struct {
 func (*MessageBadEmbeddedAlias) GetID() uint32 { return 900027 }
 
 type MessageBadEmbeddedString struct {
-	B uint8
+	B      uint8
 	string `mavlen:"4"`
 }
 
